@@ -175,6 +175,11 @@ class CExecPyObj(CExecL3):
                 st.path.append(z3.And(t >= 1, is_module_string_constant(t)))
                 self.assumptions.add("__pyx_string_tab[K]: the module's interned string constants are live str objects (one identity per slot)")
                 return ("const", Ptr(node_type(n), "pyobj", t))
+            if b.get("kind") == "MemberExpr" and b.get("name") == "__pyx_number_tab" and i.get("kind") == "IntegerLiteral":
+                t = z3.Int("module_number_constant_%s" % i.get("value"))
+                st.path.append(t >= 1)
+                self.assumptions.add("__pyx_number_tab[K]: the module's numeric constants are live objects (one identity per slot)")
+                return ("const", Ptr(node_type(n), "pyobj", t))
         return CExecL3.lval(self, st, n)
 
     ghost_objs = {}
@@ -551,6 +556,14 @@ class CExecPyObj(CExecL3):
             st.err = z3.If(b, z3.IntVal(0), st.err)
             return from_bool(b, ty)
         return CExecL3.call(self, st, name, argn, n)
+
+    def ev_ImplicitCastExpr(self, st, n):
+        if n.get("castKind") == "IntegralToPointer" and "PyObject" in (n.get("type", {}).get("qualType") or ""):
+            # (PyObject *)<integer>: only the null pointer constant is a valid object pointer; anything else is dereferenced by the C-API
+            v = self.ev(st, n["inner"][0])
+            self.oblige(st, "ub", "integer_cast_to_object_pointer", v.t == 0, n)
+            return self.obj(st, node_type(n), "from_integer")
+        return CExecL3.ev_ImplicitCastExpr(self, st, n)
 
     def no_pending_exception(self, st, name, n, unless=None):
         """C-API rule: a function that may run Python code must not be entered with the error indicator set (CPython asserts this in
